@@ -21,7 +21,7 @@ const char TypeErrorMsg[] =
 
 
 template<typename T>
-void center_of_mass(const numpy::aligned_array<T> array, npy_double* centers, const npy_int32* labels, double* totals) {
+void center_of_mass(const numpy::aligned_array<T>& array, npy_double* centers, const npy_int32* labels, double* totals) {
     const unsigned N = array.size();
     const int nd = array.ndims();
     typename numpy::aligned_array<T>::const_iterator pos = array.begin();
@@ -79,19 +79,22 @@ PyObject* py_center_of_mass(PyObject* self, PyObject* args) {
     dims[0] = PyArray_NDIM(array) * (max_label+1);
     PyArrayObject* centers = (PyArrayObject*)PyArray_SimpleNew(1, dims, NPY_DOUBLE);
     if (!centers) return NULL;
-    { // DROP THE GIL
-        gil_release nogil;
+    { // THE GIL IS DROPPED AROUND THE KERNEL (see HANDLE)
         npy_double* centers_v = ndarray_cast<npy_double*>(centers);
         std::fill(centers_v, centers_v + dims[0], 0);
         switch(PyArray_TYPE(array)) {
-#define HANDLE(type) \
-            center_of_mass<type>(numpy::aligned_array<type>(array), centers_v, labels, totals); \
+            // The array wrapper takes (and drops) a reference to `array`: it is built
+            // before the GIL is released and destroyed after it is re-acquired.
+#define HANDLE(type) { \
+                const numpy::aligned_array<type> typed(array); \
+                gil_release nogil; \
+                center_of_mass<type>(typed, centers_v, labels, totals); \
+            }
 
             HANDLE_TYPES();
 #undef HANDLE
             default: {
                 if (labels) delete [] totals;
-                nogil.restore();
                 PyErr_Format(PyExc_RuntimeError, "%s (type = %d)", TypeErrorMsg, PyArray_TYPE(array));
                 return NULL;
             }
